@@ -82,8 +82,10 @@ def check_reassembly(ctx, R, DR, MARKER, size_ok, size_desc, min_packet=8):
     prog = ctx.prog
     fn = ctx.fn(DR)
     file = fn.module.rel
-    s = summarize(prog, fn)
-    self_p, data_p = fn.params[0], fn.params[1]
+    data_p = fn.params[1]
+    from ..producer import reassembly_function
+    fn, s = reassembly_function(prog, fn)          # (the loop may live in a method the callback hands over to)
+    self_p = fn.params[0]
     buf_key = None
     # the buffer attribute = the self attribute that receives `+= data`
     loops = [l for l in find_loops(fn.node) if l in s.loops]
@@ -98,7 +100,7 @@ def check_reassembly(ctx, R, DR, MARKER, size_ok, size_desc, min_packet=8):
     put_sites = ancestor_chains(prog, fn, lambda f, n: isinstance(n.func, ast.Attribute) and n.func.attr == "put_nowait")
     puts = [n for _f, n, _ch in put_sites]
     tl = term_lookup(prog, fn)
-    if ext_loop is None and check_reassembly_offset(ctx, R, DR, MARKER, size_ok, size_desc, min_packet, fn, s, put_sites, tl):
+    if ext_loop is None and check_reassembly_offset(ctx, R, DR, MARKER, size_ok, size_desc, min_packet, fn, s, put_sites, tl, data_p):
         return True
     ctx.ob(R + ".d", DR, ext_loop is not None, "packet extraction happens inside a loop (several packets per segment are all delivered now)",
            func=DR, file=file, construct="extraction loop",
@@ -311,16 +313,16 @@ def check_reassembly(ctx, R, DR, MARKER, size_ok, size_desc, min_packet=8):
     return True
 
 
-def check_reassembly_offset(ctx, R, DR, MARKER, size_ok, size_desc, min_packet, fn, s, put_sites, tl) -> bool:
+def check_reassembly_offset(ctx, R, DR, MARKER, size_ok, size_desc, min_packet, fn, s, put_sites, tl, data_p) -> bool:
     """The same inductive step written with a consumed-bytes offset: the buffer B is left alone inside the loop, a local c (0 at entry) counts
     the bytes delivered or skipped, each iteration frames the packet at off = B.find(marker, c), delivers B[off:off+N], sets c = off + N, and on
     every way out of the function the buffer becomes B[c:].  With the view V = B[off:] the premises are those of the slicing form.
     Returns False (nothing recorded) when the function does not have this shape."""
     prog = ctx.prog
     file = fn.module.rel
-    self_p, data_p = fn.params[0], fn.params[1]
+    self_p = fn.params[0]
     from ..producer import find_offset_form
-    found = find_offset_form(s, fn)
+    found = find_offset_form(s, fn, data_p)
     if found is None:
         return False
     loop, cname, buf_key, B = found
